@@ -243,6 +243,60 @@ func genURL(r *rand.Rand) string {
 	}
 }
 
+// variantExs: the representations of https://v.test/variants over the axes set `shape`, in one of six modes:
+// 0 incomplete, 1 two representations claim one key, 2 one representation names its key twice, 3 one representation
+// lists two keys, 4 and 5 complete and non-overlapping
+func variantExs(r *rand.Rand, shape, mode int) []bex {
+	axes := [][][]string{{{"Accept-Language", "en", "fr"}}, {{"Accept-Language", "en", "fr"}, {"A", "x", "y", "z"}},
+		{{"Accept-Encoding", "gzip", "br"}, {"Accept-Language", "en", "fr", "ja"}, {"Accept", "text", "image"}}, {{"a", "p", "q"}, {"b", "p", "q"}, {"c", "p", "q"}}}[shape]
+	var vparts []string
+	for _, ax := range axes {
+		vparts = append(vparts, strings.Join(ax, ";"))
+	}
+	variants := strings.Join(vparts, ", ")
+	var keys [][]string
+	var rec func(i int, cur []string)
+	rec = func(i int, cur []string) {
+		if i == len(axes) {
+			keys = append(keys, append([]string{}, cur...))
+			return
+		}
+		for _, v := range axes[i][1:] {
+			rec(i+1, append(cur, v))
+		}
+	}
+	rec(0, nil)
+	r.Shuffle(len(keys), func(a, c int) { keys[a], keys[c] = keys[c], keys[a] })
+	twice := -1
+	switch mode {
+	case 0:
+		keys = keys[1:]
+	case 1:
+		keys = append(keys, keys[0])
+	case 2:
+		twice = r.Intn(len(keys))
+	case 3:
+		twice = -2
+	}
+	var out []bex
+	for ki, k := range keys {
+		vk := strings.Join(k, ";")
+		if ki == twice {
+			vk = vk + ", " + vk
+		}
+		if twice == -2 && ki == 0 && len(keys) > 1 {
+			vk = vk + ", " + strings.Join(keys[1], ";")
+		}
+		if twice == -2 && ki == 1 {
+			continue
+		}
+		out = append(out, bex{URL: ints([]byte("https://v.test/variants")), Status: 200, Hdrs: []hent{
+			{N: ints([]byte("Variant-Key")), Vs: [][]int{ints([]byte(vk))}},
+			{N: ints([]byte("Variants")), Vs: [][]int{ints([]byte(variants))}}}, Body: ints([]byte(fmt.Sprintf("representation %d %s", ki, strings.Join(k, "/"))))})
+	}
+	return out
+}
+
 // bundle-gen <tier>: seeded random bundles: 0..N exchanges, URL shapes, header maps with names in random case
 // and several values, status 100..999, body lengths around every CBOR head boundary.
 func bundleGen(args []string) error {
@@ -263,6 +317,19 @@ func bundleGen(args []string) error {
 			b.Exs = append(b.Exs, bex{URL: ints([]byte("https://a.test/big")), Status: 200, Hdrs: []hent{}, Body: ints(randBytes(r, bl))},
 				bex{URL: ints([]byte("https://a.test/after")), Status: 200, Hdrs: []hent{}, Body: ints(randBytes(r, 3))})
 			wrEvent(fmt.Sprintf("fix%d%s", bi, ver), &b, dests[bi%4])
+		}
+	}
+	// fixed instances: every shape of variant set in every mode, alone and next to a plain URL
+	for shape := 0; shape < 4; shape++ {
+		for mode := 0; mode < 5; mode++ {
+			b := emptyB()
+			b.Ver = "b1"
+			b.HasPrimary, b.Primary = true, ints([]byte("https://v.test/variants"))
+			if (shape+mode)%2 == 0 {
+				b.Exs = append(b.Exs, bex{URL: ints([]byte("https://a.test/plain")), Status: 200, Hdrs: []hent{}, Body: ints([]byte("plain"))})
+			}
+			b.Exs = append(b.Exs, variantExs(r, shape, mode)...)
+			wrEvent(fmt.Sprintf("var%d-%d", shape, mode), &b, dests[(shape+mode)%4])
 		}
 	}
 	for i := 1; i <= n; i++ {
@@ -329,54 +396,9 @@ func bundleGen(args []string) error {
 					"https://a.test:8443/p?q=1", "https://A.TEST/primary", "http://a.test/"}[r.Intn(6)]))
 			}
 		}
-		// b1: a URL with a variant set over 1..3 axes (complete / one representation missing / one repeated), next to the others
+		// b1: a URL with a variant set over 1..3 axes (complete / one representation missing / one repeated / ...), next to the others
 		if b.Ver == "b1" && i%3 == 0 {
-			axes := [][][]string{{{"Accept-Language", "en", "fr"}}, {{"Accept-Language", "en", "fr"}, {"A", "x", "y", "z"}},
-				{{"Accept-Encoding", "gzip", "br"}, {"Accept-Language", "en", "fr", "ja"}, {"Accept", "text", "image"}}, {{"a", "p", "q"}, {"b", "p", "q"}, {"c", "p", "q"}}}[r.Intn(4)]
-			var vparts []string
-			for _, ax := range axes {
-				vparts = append(vparts, strings.Join(ax, ";"))
-			}
-			variants := strings.Join(vparts, ", ")
-			var keys [][]string
-			var rec func(i int, cur []string)
-			rec = func(i int, cur []string) {
-				if i == len(axes) {
-					keys = append(keys, append([]string{}, cur...))
-					return
-				}
-				for _, v := range axes[i][1:] {
-					rec(i+1, append(cur, v))
-				}
-			}
-			rec(0, nil)
-			r.Shuffle(len(keys), func(a, c int) { keys[a], keys[c] = keys[c], keys[a] })
-			twice := -1
-			switch r.Intn(6) {
-			case 0: // incomplete
-				keys = keys[1:]
-			case 1: // overlapping: two representations claim one key
-				keys = append(keys, keys[0])
-			case 2: // overlapping: ONE representation names its key twice
-				twice = r.Intn(len(keys))
-			case 3: // one representation covers two keys (a list of keys), the rest one each
-				twice = -2
-			}
-			for ki, k := range keys {
-				vk := strings.Join(k, ";")
-				if ki == twice {
-					vk = vk + ", " + vk
-				}
-				if twice == -2 && ki == 0 && len(keys) > 1 {
-					vk = vk + ", " + strings.Join(keys[1], ";")
-				}
-				if twice == -2 && ki == 1 {
-					continue
-				}
-				b.Exs = append(b.Exs, bex{URL: ints([]byte("https://v.test/variants")), Status: 200, Hdrs: []hent{
-					{N: ints([]byte("Variant-Key")), Vs: [][]int{ints([]byte(vk))}},
-					{N: ints([]byte("Variants")), Vs: [][]int{ints([]byte(variants))}}}, Body: ints([]byte(fmt.Sprintf("representation %d %s", ki, strings.Join(k, "/"))))})
-			}
+			b.Exs = append(b.Exs, variantExs(r, r.Intn(4), r.Intn(6))...)
 		}
 		// a URL whose query is not valid UTF-8 (url.Parse takes it, the index key is a CBOR text string)
 		if i%17 == 5 {
